@@ -11,9 +11,8 @@ Open Scope string_scope.
 (* FULL STATEMENT (false of the faithful model, see the _refuted theorems):
      forall t ty I, tc t = Some ty -> printable_names t ->
        std_eval Sigma_t I (print_tree t) = Some (eval I t).
-   Proved part: every term of the fragment [wfp Sg [] t] (all operators except Pow, StrToInt,
-   IntToStr - refuted - and, not proved yet, the indexed BV operators, string constants and array
-   values), every signature declaring its free symbols, every well-formed interpretation, any
+   Proved part: every term of the fragment [wfp Sg [] t] (all operators except Pow - refuted -
+   and, not proved yet, the indexed BV operators, string constants and array values), every signature declaring its free symbols, every well-formed interpretation, any
    nesting of binders. *)
 Theorem C07_print_tree_sound_partial : forall Sg I t,
   wfp Sg [] t -> wf_interp I -> std_eval Sg I (print_tree t) = Some (eval I t).
@@ -31,24 +30,24 @@ Print Assumptions C07_print_tree_sound_under_binders.
 Theorem C07_print_tree_sound_hypotheses_satisfiable : wfp ex_sig [] ex_term /\ tc ex_term = Some TBool.
 Proof. exact (conj ex_term_wfp ex_term_typed). Qed.
 
-Theorem C07_print_tree_sound_refuted_str_to_int :
-  exists t, tc t = Some TInt /\ print_tree t = SList [Atom "str.to.int"; Atom "s"] /\
-            forall I, std_eval sig_sxr I (print_tree t) = None.
-Proof. exact print_tree_sound_refuted_str_to_int. Qed.
-Theorem C07_print_tree_sound_refuted_int_to_str :
-  exists t, tc t = Some TStr /\ print_tree t = SList [Atom "int.to.str"; Atom "x"] /\
-            forall I, std_eval sig_sxr I (print_tree t) = None.
-Proof. exact print_tree_sound_refuted_int_to_str. Qed.
+(* the spellings repaired in 2026-09 (str.to_int, str.from_int, div on Int operands) are in the
+   fragment: a term using them satisfies the hypotheses, is printed with the SMT-LIB 2.6 names and
+   its text is well-sorted *)
+Theorem C07_print_tree_repaired_spellings :
+  wfp sig_sxr [] ex_term2 /\ tc ex_term2 = Some TBool /\
+  flatten (print_tree ex_term2) =
+    ["("; "and"; "("; "="; "("; "str.to_int"; "s"; ")"; "("; "div"; "x"; "y"; ")"; ")";
+     "("; "="; "("; "str.from_int"; "x"; ")"; "s"; ")";
+     "("; "<"; "("; "/"; "r"; "r"; ")"; "("; "/"; "1.0"; "2.0"; ")"; ")"; ")"] /\
+  std_sort sig_sxr (print_tree ex_term2) = Some TBool.
+Proof. exact print_tree_repaired_spellings. Qed.
+
+(* still refuted: Pow has no SMT-LIB spelling *)
 Theorem C07_print_tree_sound_refuted_pow :
   exists t, tc t = Some TReal /\ print_tree t = SList [Atom "pow"; Atom "r"; Atom "2.0"] /\
             forall I, std_eval sig_sxr I (print_tree t) = None.
 Proof. exact print_tree_sound_refuted_pow. Qed.
-Theorem C07_print_tree_sorted_refuted_int_div :
-  exists t, tc t = Some TInt /\ print_tree t = SList [Atom "/"; Atom "x"; Atom "y"] /\
-            std_sort sig_sxr (print_tree t) = None.
-Proof. exact print_tree_sorted_refuted_int_div. Qed.
-Print Assumptions C07_print_tree_sound_refuted_str_to_int.
-Print Assumptions C07_print_tree_sorted_refuted_int_div.
+Print Assumptions C07_print_tree_sound_refuted_pow.
 
 (* FULL STATEMENT: ... std_eval Sigma_t I (print_dag t) = Some (eval I t).  Proved part, for ALL
    terms: the DAG printer's output is a chain of single-binding lets around the root's text and
@@ -63,22 +62,28 @@ Proof. exact print_dag_sound_partial. Qed.
 Print Assumptions C07_print_dag_sound_partial.
 
 (* FULL STATEMENT: forall t dag logic, printable_names t -> std_script_ok (script_of dag logic t) = true.
-   False of the faithful model: *)
-Theorem C07_script_wellformed_refuted_param_sort :
+   Not proved in general (it needs the static-sorting half); the two witnesses that refuted it
+   before the repairs of 2026-09 (a parametric sort used at two instances; custom sorts occurring
+   only under a function application / as the index sort of an array value, one of them with a
+   name that needs quoting) are now well-formed scripts, like the example terms: *)
+Theorem C07_script_wellformed_param_sort :
   tc param_witness = Some TBool /\
-  (forall dag, std_script_ok (script_of dag "QF_UF" param_witness) = false) /\
+  (forall dag, std_script_ok (script_of dag "QF_UF" param_witness) = true) /\
   map flatten (firstn 3 (script_of false "QF_UF" param_witness)) =
-    [["("; "set-logic"; "QF_UF"; ")"]; ["("; "declare-sort"; "List"; "1"; ")"]; ["("; "declare-sort"; "List"; "1"; ")"]].
-Proof. exact script_wellformed_refuted_param_sort. Qed.
-Theorem C07_script_wellformed_refuted_sort_not_declared :
+    [["("; "set-logic"; "QF_UF"; ")"]; ["("; "declare-sort"; "List"; "1"; ")"];
+     ["("; "declare-fun"; "l1"; "("; ")"; "("; "List"; "Int"; ")"; ")"]].
+Proof. exact script_wellformed_param_sort. Qed.
+Theorem C07_script_wellformed_sorts_declared :
   tc undeclared_sort_witness = Some TBool /\
-  (forall dag, std_script_ok (script_of dag "QF_UFLIA" undeclared_sort_witness) = false) /\
-  custom_types undeclared_sort_witness = [].
-Proof. exact script_wellformed_refuted_sort_not_declared. Qed.
+  (forall dag, std_script_ok (script_of dag "QF_UFLIA" undeclared_sort_witness) = true) /\
+  map flatten (firstn 2 (List.tl (script_of false "QF_UFLIA" undeclared_sort_witness))) =
+    [["("; "declare-sort"; "U"; "0"; ")"]; ["("; "declare-sort"; "|my sort|"; "0"; ")"]].
+Proof. exact script_wellformed_sorts_declared. Qed.
 Theorem C07_script_wellformed_example :
-  std_script_ok (script_of false "ALL" ex_term) = true /\ std_script_ok (script_of true "ALL" ex_term) = true.
+  std_script_ok (script_of false "ALL" ex_term) = true /\ std_script_ok (script_of true "ALL" ex_term) = true /\
+  std_script_ok (script_of false "ALL" ex_term2) = true /\ std_script_ok (script_of true "ALL" ex_term2) = true.
 Proof. exact script_wellformed_example. Qed.
-Print Assumptions C07_script_wellformed_refuted_param_sort.
+Print Assumptions C07_script_wellformed_param_sort.
 
 (* lexical layer used by the theorems above *)
 Theorem C07_numeral_roundtrip : forall n, (0 <= n)%Z -> numeral_val (dec_string n) = Some n.
